@@ -90,6 +90,11 @@ def prefixes(path):
     return [path[:i] for i in range(2, len(path) + 1)]
 
 
+def step_kind(ctype):
+    """kind of path step a container type is addressed with: attribute, numpy-integer item, numpy-string item, item"""
+    return {"obj": "a", "nplist": "n", "npdict": "s"}.get(ctype, "i")
+
+
 def path_str(path):
     s = path[0]
     for kind, key in path[1:]:
@@ -97,6 +102,8 @@ def path_str(path):
             s += "[%r]" % (key,)
         elif kind == "n":
             s += "[np.int64(%d)]" % key        # numpy >= 2 repr of an np.int64 item key
+        elif kind == "s":
+            s += "[np.str_(%r)]" % (key,)      # numpy >= 2 repr of an np.str_ item key
         elif kind == "a":
             s += ".%s" % key
         else:
@@ -190,7 +197,7 @@ class Spec:
             self._walk((label,), ctype, children)
 
     def _walk(self, path, ctype, children):
-        kind = "a" if ctype == "obj" else ("n" if ctype == "nplist" else "i")
+        kind = step_kind(ctype)
         self.children[path] = []
         for key, node in children:
             p = path + ((kind, key),)
@@ -464,7 +471,7 @@ class Model:
                         n = len(spec.children[out])
                         if not isinstance(k, int) or isinstance(k, bool) or not (0 <= k < n):
                             raise IndexError(k)
-                    out = out + (("n" if ctype == "nplist" else "i", k),)
+                    out = out + ((step_kind(ctype), k),)
                 else:
                     out = out + (st,)
             return out
